@@ -109,7 +109,7 @@ func c20a(c *Ctx) {
 		var bodies []ssa.CallInstruction
 		for _, b := range s.body {
 			if bf := c.Fn(b); bf != nil {
-				bodies = append(bodies, callsToIn(fn, bf)...)
+				bodies = append(bodies, c.W.callsReaching(fn, bf, 1)...)
 			}
 		}
 		if len(bodies) == 0 {
